@@ -200,6 +200,39 @@ def c05(chk):
         chk.sample(dict(case=scen[0][:300], impl=outs[0][:500]))
 
 
+def c05_inflight(chk):
+    """One dial completes and the application uses the connection at once (a call that stays in flight); then the other side's
+    dial completes.  Whichever connection the tie-break keeps, the pair ends with that one connection: the fate of the call
+    on the replaced connection changes nothing about the survivor."""
+    scen = []
+    for i in range(6 if chk.tier == "quick" else 40):
+        rng = chk.rng
+        k0, k1 = rng.randrange(1, 10**6), rng.randrange(1, 10**6)
+        a, b = (0, 1) if i % 2 == 0 else (1, 0)
+        via = "" if i % 3 else " ip=2"
+        cmds = ["seed=%d delay=%d" % (rng.randrange(1 << 30), rng.choice([100, 1000, 5000])), "node 0 key=%d" % k0, "node 1 key=%d" % k1, "idlt 0 1",
+                "connect %d %d" % (a, b), "sleep 100", "bg f1 rpc %d %d id=f1 size=10 sleep-ms=2000" % (a, b), "bg f2 rpc %d %d id=f2 size=10 sleep-ms=2000" % (b, a), "sleep %d" % rng.choice([0, 1, 20]),
+                "connect %d %d%s" % (b, a, via), "join f1 600000", "join f2 600000", "sleep 3000", "peers 0", "peers 1", "events 0", "events 1",
+                "rpc 0 1 id=x size=100", "rpc 1 0 id=y size=100", "sleep 5000", "events 0", "events 1", "peers 0", "peers 1"]
+        scen.append("simnet " + " ; ".join(cmds))
+    outs, parsed = run_scenarios(chk, scen, "fabric:mutual-dial-with-a-call-in-flight")
+    for sc, o, res in zip(scen, outs, parsed):
+        if res is None:
+            continue
+        chk.nontriv(sc)
+        cl = [c.strip() for c in sc[len("simnet "):].split(" ; ")][1:]
+        r = {}
+        for c, x in zip(cl, res):
+            r.setdefault(c, []).append(x)
+        chk.count("in-flight-call-on-the-first-connection:" + ("completed" if r["join f1 600000"][0].startswith("ok") else "failed"))
+        if r["peers 0"] != ["[1]", "[1]"] or r["peers 1"] != ["[0]", "[0]"]:
+            chk.monitor_fail("two dials, one after the other, with calls in flight on the first connection: afterwards the two sides do not list each other exactly once: %s %s" % (r["peers 0"], r["peers 1"]), dict(case=sc, impl=o[:900]))
+        elif not r["rpc 0 1 id=x size=100"][0].startswith("ok st=200") or not r["rpc 1 0 id=y size=100"][0].startswith("ok st=200"):
+            chk.monitor_fail("RPC over the surviving connection failed: %s / %s" % (r["rpc 0 1 id=x size=100"][0][:30], r["rpc 1 0 id=y size=100"][0][:30]), dict(case=sc, impl=o[:900]))
+        elif r["events 0"][1] != "[]" or r["events 1"][1] != "[]":
+            chk.monitor_fail("further connect/disconnect events after the network went quiet: %s %s" % (r["events 0"][1], r["events 1"][1]), dict(case=sc, impl=o[:900]))
+
+
 def c13(chk):
     """Background dialing of a whole network over the fabric, tick by tick, against Dialer.v."""
     quick = chk.tier == "quick"
@@ -901,6 +934,8 @@ def adversary_scenarios(chk, n, tag):
             # a dial naming the key of the very certificate the adversary presents: judged like the plain dial (name, validity,
             # usage and proof of possession are checked all the same)
             cmds += ["disconnect 2 8", "sleep 300", "connect 2 8 pin=8", "sleep 300", "disconnect 2 8", "sleep 300"]
+        # the IPv4-mapped IPv6 spelling of node 3's address, naming identity 1 (not there) and naming nobody / node 3
+        cmds += ["disconnect 2 3", "sleep 300", "connect 2 3 pin=1 ip=m", "sleep 300", "peers 2", "connect 2 3 ip=m", "sleep 300", "disconnect 2 3", "sleep 300", "connect 2 3", "sleep 300"]
         # overlapping dials to one address, one of them naming identity 1 (which is not there): each dial is judged on its own
         cmds += ["node 4 key=%d name=n%d" % (V + 3, name), "bg ov1 connect 2 4", "connect 2 4 pin=1", "join ov1", "sleep 300",
                  "node 5 key=%d name=n%d" % (V + 4, name), "bg ov2 connect 2 5 pin=1", "connect 2 5", "join ov2", "sleep 300",
@@ -941,6 +976,10 @@ def adversary_scenarios(chk, n, tag):
             chk.count("overlapping-dials-to-one-address")
             if r[pinned][0].startswith("ok") or not r[plain][0].startswith("ok"):
                 chk.monitor_fail("[%s] two overlapping dials to one address: the one naming identity 1 (not there) -> %s, the other -> %s" % (label, r[pinned][0][:40], r[plain][0][:40]), dict(case=sc, impl=o[:1500]))
+        if r["connect 2 3 pin=1 ip=m"][0].startswith("ok"):
+            chk.monitor_fail("[%s] a dial to the IPv4-mapped spelling of node 3's address naming identity 1 succeeded: %s" % (label, r["connect 2 3 pin=1 ip=m"][0][:40]), dict(case=sc, impl=o[:1500]))
+        if r["connect 2 3 ip=m"][0].startswith("ok") and not r["connect 2 3 ip=m"][0].startswith("ok 3"):
+            chk.monitor_fail("[%s] a dial to the IPv4-mapped spelling of node 3's address returned %s" % (label, r["connect 2 3 ip=m"][0][:40]), dict(case=sc, impl=o[:1500]))
         if r["connect 2 8 pin=1"][0].startswith("ok"):
             chk.monitor_fail("[%s] a dial pinned to identity 1 succeeded against the adversary" % label, dict(case=sc, impl=o[:1200]))
         if r["connect 2 8"][0].startswith("ok 1"):
@@ -1023,6 +1062,21 @@ def adversary_c14(chk):
         scen.append("simnet " + " ; ".join(cmds))
         metas.append((p, a, sni, cn))
     outs, parsed = run_scenarios(chk, scen, "fabric:adversary-names")
+    # two listeners built from one key, the second without the first one's alternate name (the node after a name migration,
+    # or another deployment of the key): what the first admitted does not carry over - the same dialer (one TLS client
+    # configuration, so whatever session state it was given) is refused by the second
+    mig = []
+    for rep in range(2):
+        mig.append("simnet seed=%d ; node 1 key=11 name=n10 alt=n20 ; node 2 key=11 name=n10 ; adv 8 k=7 names=n20 ; advdial 8 1 sni=n10 ; sleep 800 ; advdial 8 2 sni=n10 ; sleep 300 ; peers 2 ; advdial 8 1 sni=n10" % chk.rng.randrange(1 << 30))
+    mo, mp = run_scenarios(chk, mig, "fabric:adversary-names-after-migration")
+    for sc, o, res in zip(mig, mo, mp):
+        if res is None:
+            continue
+        chk.nontriv(sc)
+        if res[3] != "ok":
+            chk.monitor_fail("a dialer with a certificate for the listener's alternate name was refused: " + res[3], dict(case=sc, impl=o[:400]))
+        elif res[5] == "ok" or res[7] != "[]":
+            chk.monitor_fail("a listener accepting only n10 (same key as one that also accepts n20) admitted a dialer whose certificate is issued for n20 (%s, lists %s)" % (res[5], res[7]), dict(case=sc, impl=o[:600]))
     mcases = ["advhello %d %s %d %d" % (p, a if a else "-", sni, cn) for (p, a, sni, cn) in metas]
     mouts = run_model(mcases)
     for sc, o, res, (p, a, sni, cn), mo in zip(scen, outs, parsed, metas, mouts):
@@ -1196,7 +1250,7 @@ def sent_header_digest(args):
         if ":" in kv:
             k, v = kv.split(":")
             h[bytes.fromhex(k).decode()] = bytes.fromhex(v).decode()
-    return digest("".join(sorted("%s=%s\n" % kv for kv in h.items())).encode())
+    return digest("".join(sorted("%s=%s\n" % kv for kv in h.items())).encode()).split(":")[1]
 
 
 def c02(chk):
@@ -1363,6 +1417,38 @@ def c02(chk):
         chk.sample(dict(case=scen[0][:400], impl=outs[0][:400]))
 
 
+def c02_twins(chk):
+    """Header maps that differ only in where a header's name ends and its value begins (same route, same number of
+    headers), sent one after the other, in both directions and interleaved: each handler receives its caller's own map."""
+    maps = [{"x-trace": "id-7"}, {"x-tracei": "d-7"}, {"x-trace": "id-7"}, {"k": ""}, {"": "k"}, {"ab": "c"}, {"a": "bc"}, {"abc": ""}, {"": "abc"}]
+    scen = []
+    for i in range(2 if chk.tier == "quick" else 10):
+        rng = chk.rng
+        order = list(range(len(maps)))
+        if i:
+            rng.shuffle(order)
+        cmds = ["seed=%d delay=%d" % (rng.randrange(1 << 30), rng.choice([200, 2000])), "node 0 idle=60000 keepalive=5000", "node 1 idle=60000 keepalive=5000", "connect 0 1", "sleep 500"]
+        for k in order:
+            (n, v), = maps[k].items()
+            a, b = (0, 1) if (i + k) % 3 else (1, 0)
+            cmds.append("rpc %d %d id=t%d noid=1 xh=%s:%s" % (a, b, k, n.encode().hex() or "-", v.encode().hex() or "-"))
+        scen.append("simnet " + " ; ".join(cmds))
+    outs, parsed = run_scenarios(chk, scen, "fabric:header-boundary-twins")
+    for sc, res in zip(scen, parsed):
+        if res is None:
+            continue
+        chk.nontriv(sc)
+        cl = [c.strip() for c in sc[len("simnet "):].split(" ; ")][1:]
+        for c, x in zip(cl, res):
+            if " noid=1 " in c:
+                k = int(c.split("id=t")[1].split()[0])
+                want = digest("".join(sorted("%s=%s\n" % kv for kv in maps[k].items())).encode()).split(":")[1]
+                chk.count("boundary-twin-calls")
+                if not x.startswith("ok") or fields(x).get("hd") != want:
+                    chk.monitor_fail("a call carrying the header map %r: the handler received a map with digest %s, the caller's map has %s (%s)" % (maps[k], fields(x).get("hd") if x.startswith("ok") else "?", want, x[:40]), dict(case=sc))
+                    break
+
+
 def c12(chk):
     quick = chk.tier == "quick"
     scen, metas = [], []
@@ -1502,6 +1588,41 @@ def c12_gated(chk):
         st = fields(r["stat 1"])
         if int(st["started"]) - int(st["completed"]) - int(st["dropped"]) != 0:
             chk.monitor_fail("handlers still running after everything was joined: " + r["stat 1"], dict(case=sc))
+
+
+def c12_starved(chk):
+    """All streams of the connection are held by long calls; further calls are abandoned while they still wait for a stream
+    (before anything of them was transmitted).  Once the holders are done the connection serves new calls as before."""
+    quick = chk.tier == "quick"
+    scen, metas = [], []
+    for i in range(4 if quick else 24):
+        rng = chk.rng
+        B = rng.choice([2, 4, 8])
+        k = rng.randrange(1, 6)
+        cmds = ["seed=%d delay=1000" % rng.randrange(1 << 30), "node 0 idle=600000 keepalive=5000",
+                "node 1 idle=600000 keepalive=5000 maxbidi=%d" % B, "connect 0 1", "sleep 500"]
+        cmds += ["bg hold%d rpc 0 1 id=H%d size=10 sleep-ms=2000" % (g, g) for g in range(B)]
+        cmds += ["sleep 100"]
+        cmds += ["bg w%d rpc 0 1 id=W%d size=10 sleep-ms=5 abandon-us=%d" % (j, j, rng.choice([100000, 300000, 700000])) for j in range(k)]
+        cmds += ["join w%d 600000" % j for j in range(k)] + ["join hold%d 600000" % g for g in range(B)]
+        cmds += ["rpc 0 1 id=fresh%d size=10" % q for q in range(3)] + ["log 1", "peers 0"]
+        scen.append("simnet " + " ; ".join(cmds))
+        metas.append((B, k))
+    outs, parsed = run_scenarios(chk, scen, "fabric:abandon-while-waiting-for-a-stream")
+    for sc, res, (B, k) in zip(scen, parsed, metas):
+        if res is None:
+            continue
+        chk.nontriv(sc)
+        cl = [c.strip() for c in sc[len("simnet "):].split(" ; ")][1:]
+        r = dict(zip(cl, res))
+        chk.count("abandoned-while-waiting-for-a-stream", k)
+        fresh = [r["rpc 0 1 id=fresh%d size=10" % q] for q in range(3)]
+        if not all(x.startswith("ok st=200") and int(fields(x)["t"]) < 1000000 for x in fresh):
+            chk.monitor_fail("after %d call(s) abandoned while waiting for a stream (all %d streams held) later calls on the connection: %s" % (k, B, [x[:30] for x in fresh]), dict(case=sc))
+        if not all(r["join hold%d 600000" % g].startswith("ok st=200") for g in range(B)):
+            chk.monitor_fail("a call holding a stream was disturbed", dict(case=sc))
+        if any(e.split(",")[0][3:].startswith("W") for e in r["log 1"].strip("[]").split("|") if e):
+            chk.monitor_fail("a request abandoned before it got a stream reached the handler", dict(case=sc))
 
 
 def c12_limited(chk):
@@ -1981,6 +2102,43 @@ def c11_raw(chk):
             chk.disagree(sc, "status %s" % want_st, "Timeout.v: " + mo, "simnet/deadline-raw")
 
 
+def c11_outlayer(chk):
+    """The caller's application installed an outbound layer of its own that holds every request back for a while: the
+    deadline min(outbound default, timeout header) still bounds the whole call as the caller sees it."""
+    MS = 1000000
+    scen, metas = [], []
+    for i in range(6 if chk.tier == "quick" else 40):
+        rng = chk.rng
+        hold = rng.choice([50, 300, 800])
+        out_to = rng.choice([None, 100, 500])
+        hv = rng.choice([None, 200, 600]) if out_to is not None else rng.choice([200, 600])
+        h = rng.choice([10, 100])
+        e = min(x for x in (out_to, hv) if x is not None)
+        if abs(e - (hold + h + 2)) < 30 or abs(e - hold) < 30:
+            continue
+        cmds = ["seed=%d delay=1000" % rng.randrange(1 << 30),
+                "node 0 idle=600000 keepalive=5000 outlayer=delay%d%s" % (hold, " out_to=%d" % out_to if out_to else ""),
+                "node 1 idle=600000 keepalive=5000", "connect 0 1", "sleep 500",
+                "rpc 0 1 id=t size=20 sleep-ms=%d%s" % (h, " timeout-hdr=%s" % str(hv * MS).encode().hex() if hv else ""), "sleep 100", "rpc 0 1 id=again size=5"]
+        scen.append("simnet " + " ; ".join(cmds))
+        metas.append((hold, out_to, hv, h, e))
+    outs, parsed = run_scenarios(chk, scen, "fabric:deadline-with-a-user-outbound-layer")
+    for sc, res, (hold, out_to, hv, h, e) in zip(scen, parsed, metas):
+        if res is None:
+            continue
+        chk.nontriv(sc)
+        r = res[4]
+        el = int(fields(r).get("t", "0")) / 1000.0
+        total = hold + h + 2
+        chk.count("user-outbound-layer:" + ("cut-off" if e < total else "served"))
+        if e < total:
+            if not r.startswith("err timeout") or abs(el - e) > 8:
+                chk.monitor_fail("caller with a user outbound layer holding requests for %d ms, outbound default %s, timeout header %s ms, handler %d ms: the call %s after %.1f ms; the deadline %d ms bounds the whole call"
+                                 % (hold, out_to, hv, h, r[:30], el, e), dict(case=sc, impl=r))
+        elif not r.startswith("ok st=200") or abs(el - total) > 8:
+            chk.monitor_fail("a call that needs %d ms under a deadline of %d ms: %s after %.1f ms" % (total, e, r[:30], el), dict(case=sc, impl=r))
+
+
 def hdr_size_req(route, headers):
     return 8 + len(route) + 8 + sum(16 + len(k) + len(v) for k, v in headers)
 
@@ -2021,12 +2179,12 @@ def c15(chk):
             req_h.append(("pad", "q" * qpad))
         if which == "rh":
             # response headers written by the harness service: pad, srv, id, seen-from, origin
-            base = hdr_size_resp([("pad", ""), ("srv", "1"), ("id", rid), ("seen-from", "0"), ("origin", "in")])
+            base = hdr_size_resp([("pad", ""), ("srv", "1"), ("id", rid), ("seen-from", "0"), ("origin", "in"), ("hdr-digest", "0" * 16)])
             rpad = max(0, lim + d - base)
             args += " resp-hdr-size=%d" % rpad
             req_h.append(("resp-hdr-size", str(rpad)))
         qh = hdr_size_req("/echo", req_h)
-        rh = hdr_size_resp([("srv", "1"), ("id", rid), ("seen-from", "0"), ("origin", "in")] + ([("pad", "p" * rpad)] if rpad is not None else []))
+        rh = hdr_size_resp([("srv", "1"), ("id", rid), ("seen-from", "0"), ("origin", "in"), ("hdr-digest", "0" * 16)] + ([("pad", "p" * rpad)] if rpad is not None else []))
         cmds = ["seed=%d delay=500" % rng.randrange(1 << 30),
                 "node 0 idle=600000 keepalive=5000" + (" maxframe=%d" % cmax if cmax else ""),
                 "node 1 idle=600000 keepalive=5000" + (" maxframe=%d" % smax if smax else ""),
@@ -2204,6 +2362,8 @@ def c08(chk):
         if rng.random() < 0.3:
             cmds += ["adv 8 k=7 names=net", "bg adv connect 0 8"]   # placeholder: an extra peer connecting
             jobs.append(("adv", "connect 0 8"))
+        if rng.random() < 0.4:
+            cmds.append("holdpeer 0 1")          # the application keeps a Peer handle across the shutdown
         cmds.append("sleep %d" % rng.choice([0, 1, 5, 50, 500]))
         if mode == "explicit":
             cmds.append("shutdown 0")
